@@ -375,6 +375,8 @@ func GenConfig(t *rapid.T, p CfgParams) Config {
 	if k.Compression == "custom" {
 		k.FreshCompressor = rapid.Bool().Draw(t, "fresh-compressor")
 	}
+	k.CallerReuses = rapid.IntRange(0, 2).Draw(t, "caller-reuses") == 0
+	k.CloseTwice = rapid.IntRange(0, 3).Draw(t, "close-twice") == 0
 	k.Level = rapid.SampledFrom([]int{0, 0, 0, 1, 1, 1, 2, 3}).Draw(t, "level")
 	if p.SmallChunks {
 		k.ChunkSize = rapid.SampledFrom(smallChunkSizes).Draw(t, "chunksize")
